@@ -751,12 +751,12 @@ func InfixArgsToArray(name string, args []Sexp) (*SexpArray, bool, error) {
 				return nil, false, fmt.Errorf("infixExpand expects (infix []) as its argument; instead we saw '%T'", v.Tail)
 			}
 		}
-		return nil, false, fmt.Errorf("InfixBuilder must receive an SexpArray. Saw: name='%v' / args[0]='%#v'", name, args[0])
+		return nil, false, fmt.Errorf("InfixBuilder must receive an SexpArray. Saw: name='%v' / args[0]='%s'", name, args[0].SexpString(nil))
 	case *SexpHash:
 		// an empty basic block {} that turned into an empty hash.
 		return nil, true, nil
 	default:
-		return nil, false, fmt.Errorf("InfixBuilder (default) must receive an SexpArray. Saw: name='%v' / args[0]='%#v'", name, args[0])
+		return nil, false, fmt.Errorf("InfixBuilder (default) must receive an SexpArray. Saw: name='%v' / args[0]='%s'", name, args[0].SexpString(nil))
 	}
 	return arr, false, nil
 }
@@ -1140,7 +1140,7 @@ func (env *Zlisp) LeftBindingPower(sx Sexp) (int, error) {
 		return 0, nil
 	}
 
-	return 0, fmt.Errorf("LeftBindingPower: unhandled sx :%#v", sx)
+	return 0, fmt.Errorf("LeftBindingPower: unhandled sx :%s", sx.SexpString(nil))
 }
 
 func (p *Pratt) ShowCnodeStack() {
